@@ -29,6 +29,28 @@ TABLE = {
             "paths of the two handlers.",
             "Decides handler structure only; database uniqueness constraints, message ordering and exceptions from the "
             "database layer are outside (exception edges are followed for the reset rule, not for the create rule)."),
+    "C31": ("async check-then-act atomicity rule (await between check and write must be covered by a shared asyncio lock)",
+            "On the CFG of the save coroutine the version check, every await and the write of the new method are located; "
+            "an await between check and write is accepted only inside an `async with` on a lock object that outlives the "
+            "call (lexically or held by every caller). Also: rpc and write only under version equality, one +1 bump, "
+            "single writer of EngineData.method. This covers every interleaving of concurrent saves because asyncio can "
+            "only switch coroutines at the awaits the rule enumerates.",
+            "Assumes cooperative asyncio scheduling on one loop (switch points = awaits) and that asyncio.Lock is correct; "
+            "does not decide what the engine does with the method."),
+    "C38": ("string-alphabet injectivity analysis of the id encoder + guard dominance",
+            "The return expression of create_engine_id is decomposed into encoded parts and separators and compared "
+            "with the output alphabet of urllib.parse.quote; registration side effects and success replies must be "
+            "dominated by the false edge of has_connected_engine_id; the dispatcher must refuse/release channels. "
+            "Injectivity is a for-all-pairs statement that only an alphabet argument (not sampling) settles.",
+            "Trusted table: quote(s, safe) emits only unreserved characters, '%' and `safe`. The current tree violates "
+            "R38a (listed as known finding). Does not decide uniqueness of the names engines report."),
+    "C28": ("must-call / must-precede queries on CFGs of the register, disconnect, shutdown and persist handlers",
+            "Every path of register_engine_data restores a stored active run (same run id, contributors); disconnect "
+            "stores the engine before dropping it; shutdown stores all engines and is on the lifespan exit path; the "
+            "stored run fields follow has_run(); tag data is recorded under run_data.run_id. Necessary structure for "
+            "continuing a run across reconnects, for all paths rather than the one scenario the suite plays.",
+            "Decides structure only: crash points without shutdown, database contents and message arrival order after the "
+            "reconnect are outside static reach."),
 }
 
 DESIGN_NA = {
